@@ -115,5 +115,23 @@ func runFixturesImpl(root string) error {
 			return fmt.Errorf("TNT engine reports the tainted fixture %s as clean: rule is dead", name)
 		}
 	}
+	// RGX inclusion
+	for _, tc := range []struct {
+		re   string
+		want bool
+	}{
+		{`^[A-Za-z][A-Za-z0-9_ (),.]*$`, false},                               // comma and parentheses anywhere
+		{`^[A-Za-z][A-Za-z0-9_ .]*(\([0-9 ,]*\)[A-Za-z0-9_ .]*)*$`, true},       // numeric groups only
+		{`^[A-Za-z_][A-Za-z0-9_]*$`, true},                                    // identifiers
+		{`^[A-Z]+(\([0-9]+\))?`, false},                                       // no end anchor
+		{`^[A-Z]+\(\(\(\(\([0-9]\)\)\)\)\)$`, false},                           // deeper than the automaton counts
+		{`^[A-Z]+(\([0-9]+(,[0-9]+)?\))?( [A-Z]+)*$`, true},                   // one optional group, then words
+		{`^[A-Z]+\)$`, false},                                                 // closes what it did not open
+	} {
+		got, why := regexIncludedIn(tc.re, ddlFragmentDFA())
+		if got != tc.want {
+			return fmt.Errorf("RGX inclusion engine: pattern %s expected included=%v, got %v (%s)", tc.re, tc.want, got, why)
+		}
+	}
 	return nil
 }
